@@ -25,7 +25,8 @@ TrajCases == [kind : {"traj"}, fmt : Formats, natoms : 1..MaxAtoms, nframes : 1.
               vals : ValClasses, permuted : BOOLEAN, triclinic : BOOLEAN, op : TrajOps]
 TemplCases == [kind : {"template"}, nkeys : 0..3, duplicate : BOOLEAN, commented : BOOLEAN,
                set_existing : SUBSET (1..3), set_new : 0..2,
-               final_newline : BOOLEAN]          \* does the template's last line end with a line terminator?
+               final_newline : BOOLEAN,          \* does the template's last line end with a line terminator?
+               eq_tail : {"none", "value", "comment"}]   \* the first key's line carries a second '=': in its value (-DPOSRES_FC=500) or in a trailing comment
 
 (* CP2K inputs are section trees; an edit sets keywords of MOTION->MD, may add a section that does   *)
 (* not exist yet and may remove MOTION->PRINT; results are compared as trees (sibling order is      *)
@@ -52,7 +53,7 @@ WellFormed(x) == IF x.kind = "cp2k" THEN (x.edit_kind => x.kinds >= 2) ELSE IF x
                       /\ (x.fmt \in {"g96"} => x.nframes = 1 /\ x.op \in {"roundtrip", "reverse"})
                       /\ (x.fmt = "trr" => x.op \in {"roundtrip", "extract"})
                       /\ (x.triclinic => x.fmt \in {"g96", "trr"})
-                 ELSE \A i \in x.set_existing : i <= x.nkeys
+                 ELSE (\A i \in x.set_existing : i <= x.nkeys) /\ (x.eq_tail # "none" => x.nkeys >= 1)
 
 Init == /\ done = FALSE /\ law = "?"
         /\ c \in {x \in TrajCases \cup TemplCases \cup Cp2kCases \cup LammpsCases : WellFormed(x)}
